@@ -15,3 +15,23 @@ func Harness_C20_locations_discipline() {
 	verifAssert("C20.locations-set-applied", got != nil && got.Name == "b")
 	verifReach("C20.locations-discipline.end")
 }
+
+// C14 / C20 — a reload publishes a finished list: requests read the list after the getter released
+// the lock, so the list that `Set` makes visible is already sorted by specificity and is never written
+// again (a publish-then-sort would let a request racing the reload be routed by an unsorted list).
+// The engine freezes the list object at the moment it is stored into the registry.
+func Harness_C14_set_publishes_sorted() {
+	ls := NewLocations()
+	verifFreezeWhenStored(&ls.locations)
+	// configuration order: least specific first
+	ls.Set([]Location{
+		{Name: "any"},
+		{Name: "host", Hosts: []string{"h"}},
+		{Name: "prefix", Prefixes: []string{"/p"}},
+		{Name: "both", Hosts: []string{"h"}, Prefixes: []string{"/p"}},
+	})
+	verifAssert("C14.published-location-list-is-never-written-again", !verifFrozenWrite())
+	got := ls.GetLocations()
+	verifAssert("C14.published-list-is-sorted-by-specificity", len(got) == 4 && got[0].Name == "both" && got[1].Name == "prefix" && got[2].Name == "host" && got[3].Name == "any")
+	verifReach("C14.set-publishes.end")
+}
